@@ -13,4 +13,10 @@ let init () =
     let d = bytes_of_hex data in
     match k with
     | "Musepack" -> reply Parse_musepack.mpc_info_list (Parse_musepack.musepack_load d)
+    | "WavPack" -> reply Parse_wavpack.wv_info_list (Parse_wavpack.wavpack_load d)
+    | "SMF" -> reply Parse_smf.smf_info_list (Parse_smf.smf_load d)
+    | "VComment" -> reply Parse_vcomment.vc_info_list (Parse_vcomment.vcomment_load d)
+    | "OggVorbisInfo" -> reply Parse_ogg.ogv_info_list (Parse_ogg.oggvorbis_info_load d)
+    | "OggVorbis" -> reply Parse_ogg.ogv_info_list (Parse_ogg.oggvorbis_load d)
+    | "APEv2Data" -> reply Parse_apev2.ape_data_list (Parse_apev2.apev2data_load d)
     | _ -> "error unknown-loader " ^ k)
